@@ -1120,6 +1120,34 @@ __attribute__((noinline)) static int after(int x) { return x + (int)(getppid() >
 int main(void) { int r = spawn(); r += after(0); r += spawn(); r += after(0); printf("r=%d\n", r); return 0; }
 """
 
+E2E_WITNESS_FIRST_LIBCALL_LJ = r"""
+#include <stdio.h>
+#include <stdlib.h>
+#include <setjmp.h>
+static jmp_buf jb; static int arm; static volatile int sink;
+static int cmp(const void *a, const void *b) { if (arm) longjmp(jb, 1); return *(const int *)a - *(const int *)b; }
+/* the first qsort() call of the process is left by longjmp from its callback: the dynamic linker has just resolved
+   qsort's GOT slot and only the exit hook - which never runs - would point it back to the hook */
+__attribute__((noinline)) static int sorted(int bail) { int arr[4] = { 3, 1, 2, 0 }; arm = bail;
+	if (!setjmp(jb)) qsort(arr, 4, sizeof(int), cmp); return arr[0]; }
+int main(void) { sink += sorted(1); sink += sorted(0); sink += sorted(0); printf("%d\n", sink); return 0; }
+"""
+
+E2E_WITNESS_FIRST_LIBCALL_LJ2 = r"""
+#include <stdio.h>
+#include <stdlib.h>
+#include <setjmp.h>
+static jmp_buf jb; static int arm; static volatile int sink;
+static int tab[3] = { 0, 1, 2 };
+static int cmp2(const void *a, const void *b) { if (arm) longjmp(jb, 1); return *(const int *)a - *(const int *)b; }
+/* two library calls deep: qsort -> cmp1 -> bsearch -> cmp2 -> longjmp, both library functions called for the first time */
+static int cmp1(const void *a, const void *b) { int key = *(const int *)a; if (bsearch(&key, tab, 3, sizeof(int), cmp2)) sink++;
+	return *(const int *)a - *(const int *)b; }
+__attribute__((noinline)) static int sorted(int bail) { int arr[4] = { 3, 1, 2, 0 }; arm = bail;
+	if (!setjmp(jb)) qsort(arr, 4, sizeof(int), cmp1); return arr[0]; }
+int main(void) { sink += sorted(1); sink += sorted(0); sink += sorted(0); printf("%d\n", sink); return 0; }
+"""
+
 E2E_WITNESS_MAX_STACK = r"""
 #include <setjmp.h>
 #include <stdio.h>
@@ -1621,6 +1649,12 @@ def run_e2e(ctx, objdir):
          "record_opts": ["-N", "vfork"],
          "what": "-N vfork: child and parent both leave the same vfork call, the notrace counter went to -1 and the second vfork() of "
                  "the process was recorded"},
+        {"name": "w_firstlj", "src": E2E_WITNESS_FIRST_LIBCALL_LJ, "lang": "c", "flags": ["-pg", "-O0"], "key": "first-libcall-left-by-longjmp",
+         "what": "the first ever call of a library function (qsort) is left by longjmp from its callback: restore_jmpbuf_rstack re-armed "
+                 "the abandoned PLT frames from index count, but the first one sits at count - 1 (the slot the setjmp entry had): all "
+                 "later qsort() calls went straight to libc, unrecorded, their callbacks one level too high", "count": ("qsort", 3)},
+        {"name": "w_firstlj2", "src": E2E_WITNESS_FIRST_LIBCALL_LJ2, "lang": "c", "flags": ["-pg", "-O0"], "key": "first-libcall-left-by-longjmp-nested",
+         "what": "same, two library calls deep (qsort -> callback -> bsearch -> callback -> longjmp)", "count": ("qsort", 3)},
     ]
     wd = os.path.join(ctx.scratch, "e2e")
 
@@ -1694,6 +1728,17 @@ def run_e2e(ctx, objdir):
             got = sum(1 for ents in wres[w["name"]].get("replay", {}).values() for n, d in ents if n == nm)
             if got != want:
                 probs.append(("calls", "%s() is called %d times but replay shows %d calls" % (nm, want, got)))
+        if w["name"] == "w_firstlj2" and not probs:
+            ents_ = [n for e in wres[w["name"]].get("replay", {}).values() for n, d in e]
+            if ents_.count("bsearch") != ents_.count("cmp1"):
+                probs.append(("calls", "every cmp1() calls bsearch() once: replay shows %d cmp1 and %d bsearch calls"
+                              % (ents_.count("cmp1"), ents_.count("bsearch"))))
+        if w["name"] in ("w_firstlj", "w_firstlj2") and not probs:
+            # main(0) sorted(1) qsort(2) cmp(3): the callbacks of a traced qsort are at depth 3
+            for e in wres[w["name"]].get("replay", {}).values():
+                ds = sorted(set(d for n, d in e if n in ("cmp", "cmp1")))
+                if ds and ds != [3]:
+                    probs.append(("depth", "the callbacks of qsort() are shown at depth(s) %s, true depth 3" % ds))
         if w["name"] == "w_vfthread" and not probs:
             rp_ = wres[w["name"]].get("replay", {})
             mains = [[n for n, _ in e if n in ("main", "spawn")] for e in rp_.values() if any(n == "main" for n, _ in e)]
@@ -1840,6 +1885,17 @@ def gen_vfk(rng):
     vf = frames.pop()
     parent_frames = list(frames)
     parent_slot = st["slot"]
+    if rng.random() < 0.25:
+        # a traced signal handler runs in the parent between the entry hook of vfork and the system call
+        tags.add("vfk:handler-before-syscall")
+        st["slot"] -= 8
+        push(False)
+        if rng.random() < 0.5:
+            push(True, rng.random() < 0.5)
+            ret()
+        ret()
+        frames[:] = parent_frames
+        st["slot"] = parent_slot
     lines.append("VCHILD")
     mops.append(("SChild", len(lines) - 1, vf[1]))
     floor = len(frames)
